@@ -101,8 +101,11 @@ def run_config(cfg, res, relay_oracle=None, extra_weights=None):
 
   # exhaustive part: one destination
   nvar = 2 if cfg['tier'] == 'quick' else 6
-  for v in vs[:nvar]:
-    apply_variant(ns.settings, v)
+  # the exhaustive part always covers the static and the dynamic router
+  chosen = [next(v for v in vs if not v['dyn']), next(v for v in vs if v['dyn'] and v['retries'] == 0)]
+  chosen += [v for v in vs if v not in chosen][:max(0, nvar - 2)]
+  for v in chosen:
+    apply_variant(ns.settings, v, 'consistent-hashing' if v['dyn'] else 'constant')
     for prefix in PREFIXES:
       # iterative deepening DFS by re-execution; prune at the first inapplicable event
       dead = set()
